@@ -24,3 +24,5 @@ UNITS += RI.units_range_init(shapes=[(1, 1, 1)], props=("C01", "C09"))
 UNITS += [ST.unit_no_hidden_state().also("C09")]
 from props import _groups as _G
 UNITS = _G.with_groups(PROPERTY, UNITS, _G.CID, _G.FIELD_DECLS)
+from contracts import protocol as PR
+UNITS += [PR.unit_late_classes()]
